@@ -1,7 +1,7 @@
 (** Pinned statements of the C09 property theorems: compiled on every check, so a theorem
     cannot be weakened silently. *)
 From V Require Import Base.Util Gql.Ast Writer.Wop Ts.TsType Ts.TsDen
-  C10.Model C10.Spec C10.DenLemmas C10.Proofs C10.Examples C09.Model C09.Spec C09.Proofs C09.Proofs2 C09.Proofs3 C09.Examples C09.Properties.
+  C10.Model C10.Spec C10.DenLemmas C10.Proofs C10.Examples C09.Model C09.Spec C09.Given C09.Proofs C09.Proofs2 C09.Proofs3 C09.Proofs4 C09.Examples C09.Properties.
 
 Check (C09_variables_exact :
   forall o doc ms ns allow vds f v b,
@@ -62,3 +62,17 @@ Check (C09_omission_from_config :
   (In_type (vars_env ms) (variables_type (oopts_from_config configured) vds) v <-> config_allow_undefined configured = true)
   /\ (NotIn_type (vars_env ms) (variables_type (oopts_from_config configured) vds) v <-> config_allow_undefined configured = false)).
 Print Assumptions C09_omission_from_config.
+
+Check (C09_explicit_split :
+  forall o doc allow, so_optional o = allow -> forall vds v,
+  explicit_c o doc allow vds v = coercible o doc vds v && given_c doc allow vds v).
+Print Assumptions C09_explicit_split.
+
+Check (C09_main :
+  forall o doc ms ns allow vds v,
+  c09_guard o doc allow vds = true -> namespace_members o doc OpIn = Ok ms ->
+  (In_type (vars_env ms) (variables_type (mkOOpts ns allow) vds) v
+     <-> coercible o doc vds v = true /\ given_c doc allow vds v = true)
+  /\ (NotIn_type (vars_env ms) (variables_type (mkOOpts ns allow) vds) v
+     <-> coercible o doc vds v = false \/ given_c doc allow vds v = false)).
+Print Assumptions C09_main.
